@@ -127,6 +127,8 @@ def _already_written_skips(ctx, run, cfg, fetch_loop):
                 verdict, why = False, "the test `%s` does not keep every write of the loop from an alignment an earlier region returned" % u(e)[:70]
         elif (earlier and okp is None) or (not earlier and idx is None):
             verdict, why = None, "cannot read the skip condition `%s`" % u(e)[:80]
+            for s_ in cfg.succ(t, "false" if neg else "true"):
+                edges.add((t, s_))  # R6 says undecided; R1 must not call this side an unexplained skip
         else:
             verdict, why = False, "the skip `%s` is not the test `an earlier region of the list overlaps the alignment`" % u(e)[:80]
     return edges, verdict, why
@@ -213,8 +215,11 @@ def r7(ctx):
 
     fi = ctx.func("whatshap.variants.ReadSetReader._usable_alignments")
     cfg = ctx.cfg(fi)
-    loops = [n for n in walk_function(fi.node) if isinstance(n, ast.For) and isinstance(n.iter, ast.Call) and u(n.iter.func).endswith(".fetch") and isinstance(n.target, ast.Name)]
-    ctx.require(len(loops) == 1, "fetch loop not found in _usable_alignments")
+    loops = [n for n in walk_function(fi.node) if isinstance(n, ast.For) and isinstance(n.target, ast.Name) and any(isinstance(c_, ast.Call) and u(c_.func).endswith(".fetch") for c_ in ast.walk(n.iter))]
+    loops = [n for n in loops if not any(m is not n and m in list(ast.walk(n)) for m in loops)]
+    if len(loops) != 1:
+        ctx.ob(fi.qual, "usable-alignments-decision", None, fi.loc(), "cannot find the loop over the fetched alignments in _usable_alignments")
+        return
     al = loops[0].target.id
     B = "%s.bam_alignment" % al
     A = ["%s.is_supplementary" % B, "self._use_supplementary", "%s.mapping_quality < self._mapq_threshold" % B, "%s.is_secondary" % B, "%s.is_unmapped" % B, "%s.is_duplicate" % B, "self._duplicates"]
